@@ -88,6 +88,11 @@ func introspectRemoteSchema(factory QueryerFactory, url string) (*ast.Schema, er
 	}
 
 	for _, remoteType := range remoteSchema.Types {
+		// a type reference that does not end at a named type cannot be reconstructed
+		if err := checkTypeRefs(remoteType); err != nil {
+			return nil, fmt.Errorf("type %s: %w", remoteType.Name, err)
+		}
+
 		// convert turn the API payload into a schema type
 		schemaType := parseType(remoteType)
 		if schemaType == nil {
@@ -176,6 +181,12 @@ func introspectRemoteSchema(factory QueryerFactory, url string) (*ast.Schema, er
 		case "skip", "deprecated", "include", "specifiedBy":
 			// skip builtin stuff, it'll be lately added by gqlparser
 			continue
+		}
+
+		for i := range directive.Args {
+			if err := checkTypeRef(&directive.Args[i].Type); err != nil {
+				return nil, fmt.Errorf("directive %s: %w", directive.Name, err)
+			}
 		}
 
 		// the list of directive locations
@@ -366,6 +377,45 @@ func parseArgList(args []IntrospectionInputValue) ast.ArgumentDefinitionList {
 	}
 
 	return result
+}
+
+// checkTypeRef makes sure that the wrapper chain of a type reference ends at a named type.
+// The introspection query only asks for a limited number of ofType levels.
+func checkTypeRef(ref *IntrospectionTypeRef) error {
+	for ref != nil {
+		switch ref.Kind {
+		case "NON_NULL", "LIST":
+			if ref.OfType == nil {
+				return errors.New("type reference is nested deeper than the introspection query can express")
+			}
+			ref = ref.OfType
+		default:
+			if ref.Name == "" {
+				return errors.New("could not find type's name")
+			}
+			return nil
+		}
+	}
+	return errors.New("missing type reference")
+}
+
+func checkTypeRefs(remoteType IntrospectionQueryFullType) error {
+	for i := range remoteType.Fields {
+		if err := checkTypeRef(&remoteType.Fields[i].Type); err != nil {
+			return err
+		}
+		for j := range remoteType.Fields[i].Args {
+			if err := checkTypeRef(&remoteType.Fields[i].Args[j].Type); err != nil {
+				return err
+			}
+		}
+	}
+	for i := range remoteType.InputFields {
+		if err := checkTypeRef(&remoteType.InputFields[i].Type); err != nil {
+			return err
+		}
+	}
+	return nil
 }
 
 func parseTypeRef(response *IntrospectionTypeRef) *ast.Type {
